@@ -1,5 +1,174 @@
 """C06 - the recipe model is referentially consistent (one kernel: intermediate-preparation references)."""
-import scratch, kani_group, registry
+import os
+import scratch, kani_group, registry, mcheck, mir, smt, models
+from mir import SV, Agg, Enum, Opaque, OpenAgg, VecVal
+
+
+NUMBERING_CASES = [
+    (">> [mode]: components\\n@flour{200%g}\\n\\n>> [mode]: default\\nMix the @&flour{}.\\n\\nBake.\\n", [[1, 2]]),
+    ("Chop the @onion{}.\\n\\n>> [mode]: components\\n@salt{}\\n\\n@pepper{}\\n>> [mode]: default\\nSeason with @&salt{}.\\n", [[1, 2]]),
+    ("= A\\nOne.\\n\\nTwo.\\n\\n= B\\nThree.\\n", [[1, 2], [1]]),
+    ("Step.\\n\\n> note\\n\\nStep two.\\n\\nStep three.\\n", [[1, 2, 3]]),
+    ("= Prep\\nChop.\\n\\n= Dough\\n>> [mode]: components\\n@flour{}\\n>> [mode]: default\\nMix the @&flour{}.\\n\\nKnead.\\n", [[1], [1, 2]]),
+]
+
+
+def judge_numbering(nat, profile="debug"):
+    bad = []
+    for text, want in NUMBERING_CASES:
+        r = nat.call("step_numbers", text, profile=profile)
+        got = [s for s in r.get("sections", []) if s] if isinstance(r, dict) else None
+        if got != want:
+            bad.append("%r: steps numbered %s, expected %s" % (text, r, want))
+    return bad
+
+
+def m_part(run, scr, nat):
+    """step numbering: the event loop of RecipeCollector::parse_events over Start/End/Section events, from a collector
+    state that satisfies `step_counter = 1 + steps already in the current section`"""
+    ms = mcheck.MSession(run, scr)
+    dump = ms.load_mir()
+    decls = ms.decls
+    f_pe = dump.find_impl_method("parse_events", r"_1: RecipeCollector<'_, '_>, _2: impl Iterator<Item = Event<'i>>")
+    run.functions.append("analysis::RecipeCollector::parse_events (MIR; Start/End/Section handlers, loop unrolled by the event count)")
+    rc = decls.structs["RecipeCollector"]
+    recf = decls.structs["Recipe"]
+    secf = decls.structs["Section"]
+    stepf = decls.structs["Step"]
+    ev_names = [v for v, _ in decls.enums["Event"]]
+    bk_names = [v for v, _ in decls.enums["BlockKind"]]
+    dm_names = [v for v, _ in decls.enums["DefineMode"]]
+    cn_names = [v for v, _ in decls.enums["Content"]]
+    items = []
+    scenarios = [("3 blocks", ["B", "B", "B"]), ("2 blocks, new section, 2 blocks", ["B", "B", "S", "B", "B"]), ("4 blocks", ["B", "B", "B", "B"])]
+    if run.tier == "quick":
+        scenarios = scenarios[:2]
+    for sname, shape in scenarios:
+        sem = smt.RealSem(prefix="e")
+        mods = dict(models.STD_MODELS)
+        mods.update(models.MORE_MODELS)
+        mods.update(models.VEC_MODELS)
+        mods.update(models.RESULT_MODELS)
+        it = mir.Interp(dump, decls, sem, models=mods)
+        dm = sem.sym_int("define_mode", "isize", 0, len(dm_names) - 1)
+        c0 = sem.sym_int("c0", "u32", 1, 1000000)
+        kinds = []
+        events = []
+
+        def enum_const(ty, names, idx_expr, variants):
+            return Enum(ty, SV("isize", idx_expr), variants, names)
+        for i, e in enumerate(shape):
+            if e == "B":
+                k = sem.sym_int("kind%d" % i, "isize", 0, len(bk_names) - 1)
+                kinds.append(k)
+                bk = lambda: Enum("BlockKind", SV("isize", k), {n: Agg("BlockKind::" + n, {}) for n in bk_names}, bk_names)
+                events.append(Enum("Event", SV("isize", str(ev_names.index("Start"))), {"Start": Agg("Event::Start", {"0": bk()})}, ev_names))
+                events.append(Enum("Event", SV("isize", str(ev_names.index("End"))), {"End": Agg("Event::End", {"0": bk()})}, ev_names))
+            else:
+                kinds.append(None)
+                events.append(Enum("Event", SV("isize", str(ev_names.index("Section"))),
+                                   {"Section": Agg("Event::Section", {"0": it._mk_enum("Option", "None", [])})}, ev_names))
+        section0 = Agg("Section", {str(secf.index("name")): it._mk_enum("Option", "None", []), str(secf.index("content")): VecVal([])})
+        recipe = OpenAgg("Recipe", {str(recf.index("sections")): VecVal([])})
+        col = OpenAgg("RecipeCollector", {
+            str(rc.index("content")): recipe,
+            str(rc.index("current_section")): section0,
+            str(rc.index("define_mode")): Enum("DefineMode", SV("isize", dm), {n: Agg("DefineMode::" + n, {}) for n in dm_names}, dm_names),
+            str(rc.index("step_counter")): SV("u32", c0),
+            str(rc.index("old_style_metadata_used")): VecVal([]),
+        })
+        eq_discr = lambda it_, a, c_: SV("bool", sem.simplify("(= %s %s)" % (it_.deref(a[0], it_.cur_env).discr.expr, it_.deref(a[1], it_.cur_env).discr.expr)))
+        ne_discr = lambda it_, a, c_: SV("bool", sem.simplify("(not (= %s %s))" % (it_.deref(a[0], it_.cur_env).discr.expr, it_.deref(a[1], it_.cur_env).discr.expr)))
+        it.models.update({
+            r"^<impl Iterator<Item = Event<'i>> as Iterator>::by_ref$": models.m_identity,
+            r"^<impl Iterator<Item = Event<'i>> as Iterator>::next$": models.m_iter_next,
+            r"^<DefineMode as PartialEq>::eq$": eq_discr, r"^<DefineMode as PartialEq>::ne$": ne_discr,
+            r"^<BlockKind as PartialEq>::eq$": eq_discr,
+            r"^std::string::String::new$": lambda it_, a, c_: Opaque("empty string"),
+            r"^Vec::<.*>::new$": lambda it_, a, c_: VecVal([]),
+            r"^Arguments::<'_>::from_str$": models.m_opaque,
+            r"^PassResult::<.*>::new$": models.m_opaque,
+            r"^std::option::Option::<std::string::String>::is_none$": lambda it_, a, c_: SV("bool", "(= %s 0)" % it_.deref(a[0], it_.cur_env).discr.expr),
+        })
+        outs = it.run(f_pe, [col, models.IterVal(events)])
+        D = list(sem.decls)
+        for o in outs:
+            p = ">".join(o.trace[-2:])
+            if o.kind == "panic":
+                items.append((D, "%s: the event loop never panics on balanced Start/End pairs (%s)" % (sname, str(o.msg)[:50]), mcheck.pc_assert(o.pc), "unsat"))
+                continue
+            if o.kind != "return":
+                continue
+            fin = o.env["_1"]
+            cur = fin.fields[str(rc.index("current_section"))]
+            done = fin.fields[str(rc.index("content"))].fields[str(recf.index("sections"))].items
+            counter = fin.fields[str(rc.index("step_counter"))].expr
+            cur_items = cur.fields[str(secf.index("content"))].items if isinstance(cur, Agg) and isinstance(cur.fields.get(str(secf.index("content"))), VecVal) else []
+            # the return path moves the last section into `sections`; collect all sections in order
+            all_sections = [sct.fields[str(secf.index("content"))].items for sct in done if isinstance(sct, Agg)]
+            if done and done[-1] is cur:
+                cur_items = []        # the current section was moved into `sections` on the way out
+
+            def numbering(contents, first):
+                """SMT: steps inside `contents` are numbered first, first+1, ... in order; returns (condition, number of steps expr)"""
+                conds, n = [], "0"
+                for cnt in contents:
+                    if isinstance(cnt, Enum) and "Step" in cnt.variants:
+                        num = cnt.variants["Step"].fields["0"].fields[str(stepf.index("number"))].expr
+                        conds.append("(= %s (+ %s %s))" % (num, first, n))
+                        n = "(+ %s 1)" % n
+                return conds, n
+            has_section_event = "S" in shape
+            conds = []
+            if not has_section_event:
+                # everything lands in one section: numbered from c0; the counter ends at c0 + #steps (the invariant is kept)
+                cs, n = numbering([x for sec in all_sections for x in sec] + cur_items, "c0")
+                conds += cs + ["(= %s (+ c0 %s))" % (counter, n)]
+            else:
+                # blocks before the Section event continue the numbering from c0, blocks after it start again at 1
+                secs = all_sections + ([cur_items] if cur_items else [])
+                # which pushed section is which depends on what was pushed; the last section holds the post-reset blocks
+                if secs:
+                    cs_last, n_last = numbering(secs[-1], "1")
+                    alt_a = cs_last + ["(= %s (+ 1 %s))" % (counter, n_last)]
+                    if len(secs) >= 2:
+                        cs_first, _ = numbering(secs[0], "c0")
+                        alt_a += cs_first
+                    # or: nothing was pushed after the reset, the only section is the pre-reset one
+                    cs_only, _ = numbering(secs[0], "c0")
+                    alt_b = cs_only + ["(= %s 1)" % counter] if len(secs) == 1 else ["false"]
+                    conds.append("(or (and %s) (and %s))" % (" ".join(alt_a) or "true", " ".join(alt_b) or "true"))
+                else:
+                    conds.append("(= %s 1)" % counter)
+            items.append((D, "%s path[%s]: steps are numbered consecutively per section and the counter stays 1 + steps of the current section" % (sname, p),
+                          mcheck.pc_assert(o.pc) + ["(not (and %s))" % " ".join(conds) if conds else "false"], "unsat"))
+    run.assumptions += ["event sequences: balanced Start/End pairs of symbolic kind (step | text), optionally one unnamed Section event; "
+                        "constant but symbolic define mode; blocks are empty (their content is handled by other functions)"]
+    run.bounds.append("M: parse_events' loop unrolled by the event count (6 resp. 9 events)")
+    def on_sat(model, ob, item):
+        for profile in nat.bins:
+            bad = judge_numbering(nat, profile)
+            run.traces_validated += len(NUMBERING_CASES)
+            if bad:
+                run.violation("kernel=analysis::RecipeCollector::parse_events obligation=step-numbering", "; ".join(bad[:2]),
+                              dict(engine="mir-smt", replay="step_numbers", profile=profile))
+                ob["status"] = "violated"
+                return
+        run.inconclusive.append("C06 step numbering: candidate (define mode %s) does not reproduce through the public parser" % model.get("define_mode"))
+
+    by = {}
+    for (D, name, asserts, expect) in items:
+        by.setdefault(id(D), (D, []))[1].append((name, asserts, expect))
+    k = 0
+    for _, (D, lst) in by.items():
+        k += 1
+        b = mcheck.Batch(ms, "c06-%d" % k, D, timeout_s=60)
+        for name, asserts, expect in lst:
+            b.add(name, asserts, expect, ["define_mode", "c0"], on_sat)
+        b.run()
+    if items:
+        run.samples.append({"engine": "mir-smt", "obligation": items[-1][1]})
+    ms.close()
 
 
 def check(run):
@@ -14,15 +183,39 @@ def check(run):
     ]
     run.not_covered += [
         "component index / back-link maintenance (ingredient(), resolve_reference, set_referenced_from): String names with unicase folding, growing vectors",
-        "step numbering, non-empty sections / steps / text items, timers having a name or a quantity: need the event loop",
+        "non-empty sections / steps / text items, timers having a name or a quantity, mode switches through metadata events: need the parser in front of the event loop",
     ]
-    kani_group.run_group(run, scr, registry.select("C06", run.tier))
+    only = os.environ.get("VERIF_ONLY", "")
+    if only in ("", "M"):
+        import native
+        nat = native.Native(scr)
+        nat.build(log=os.path.join(run.logdir, "native-build.log"))
+        try:
+            m_part(run, scr, nat)
+        except mir.Unsupported as e:
+            run.inconclusive.append("encoder: %s" % e)
+        bad = judge_numbering(nat)
+        run.traces_validated += len(NUMBERING_CASES)
+        if bad and not run.violations:
+            run.violation("validation-vector step-numbering", "; ".join(bad[:2]), dict(engine="validation-vector", replay="step_numbers"))
+    if only in ("", "K"):
+        kani_group.run_group(run, scr, registry.select("C06", run.tier))
 
 
 def replay(run, path):
+    import json, native
+    obj = json.load(open(path))
     scr = scratch.Scratch()
     scr.copy_repo()
     scr.inject()
+    if obj.get("replay") == "step_numbers":
+        nat = native.Native(scr)
+        nat.build()
+        bad = judge_numbering(nat)
+        print("replay:", bad)
+        if bad:
+            print("VIOLATION property=C06 replay=%s" % path)
+        return 1 if bad else 0
     st = kani_group.replay(run, scr, path)
     print("replay: %s" % st)
     if st == "failed":
